@@ -1,4 +1,187 @@
 import Model.Base.Proto
+import Model.Legacy.Collection
+import Model.Legacy.Text
+import Model.Spec.Legacy
 
-/-- stub: replaced when the property's driver is built -/
-def main : IO Unit := pure ()
+namespace Driver.C17
+open Proto Legacy
+
+def hexStr (s : String) : String := (Bytes.ofString s).toHex
+def unhex (s : String) : Bytes := (Bytes.ofHex s).getD (str "?")
+def unhexString (s : String) : String :=
+  (String.fromUTF8? (ByteArray.mk (unhex s).toArray)).getD "?"
+
+def splitD (s : String) (sep : String) : List String := if s == "" || s == "-" then [] else s.splitOn sep
+
+def bitsOf (s : String) : F64.Bits := (F64.ofHex? s).getD 0x0000DEADDEADDEAD
+def bitsDot (s : String) : List F64.Bits := (splitD s ".").map bitsOf
+def showBits (b : F64.Bits) : String := F64.toHex (F64.canonNaN b)
+def showBitsZ (b : F64.Bits) : String := if F64.isZero b then F64.toHex 0 else showBits b
+def showBitsList (sep : String) (l : List F64.Bits) : String := sep.intercalate (l.map showBits)
+def showBitsListD (l : List F64.Bits) : String := if l.isEmpty then "-" else showBitsList "," l
+def showStrList (l : List Str) : String := if l.isEmpty then "-" else ",".intercalate (l.map Bytes.toHex)
+def strList (s : String) : List Str := if s == "-" then [] else (s.splitOn ",").map unhex
+
+def parseLabels (s : String) : List (Str × Str) :=
+  (splitD s ";").map fun kv => match kv.splitOn "." with
+    | [k, v] => (unhex k, unhex v)
+    | _ => (str "?", str "?")
+
+def parseOrder (s : String) : Option Order :=
+  if s == "-" || s == "" then none else
+  let cs := s.toList
+  let base := if cs.getLast? == some 'n' then Order.byName else Order.byDelta
+  some ((List.range (cs.length - 1)).foldl (fun o _ => Order.reverse o) base)
+
+def parseTestRes (s : String) : TestRes :=
+  match s.toList with
+  | 'p' :: rest => .p (bitsOf (String.ofList rest))
+  | ['z'] => .errZeroVariance
+  | ['s'] => .errSampleSize
+  | ['e'] => .errSamplesEqual
+  | 'o' :: rest => .errOther (unhexString (String.ofList rest))
+  | _ => .errOther "?unparsable"
+
+structure Case where
+  coll : Coll
+  cfgs : List Str
+  results : List (Nat × Result)
+  num : Num
+  T : TestFn
+  G : GeoFn
+
+def parseCase (l : Line) : Case :=
+  let nums : List (Str × Int × Option F64.Bits) := (splitD (l.getD "nums") ",").map fun e =>
+    match e.splitOn ":" with
+    | [t, a, p] => (unhex t, a.toInt?.getD 0, if p == "!" then none else some (bitsOf p))
+    | _ => (str "?", 0, none)
+  let num : Num := {
+    atoi := fun s => match nums.lookup s with | some (a, _) => a | none => 0
+    parseFloat := fun s => match nums.lookup s with | some (_, p) => p | none => none }
+  let tests : List ((List F64.Bits × List F64.Bits) × TestRes) := (splitD (l.getD "tests") ",").map fun e =>
+    match e.splitOn "=" with
+    | [k, r] => (match k.splitOn "/" with
+        | [o, n] => ((bitsDot o, bitsDot n), parseTestRes r)
+        | _ => (([], []), .errOther "?key"))
+    | _ => (([], []), .errOther "?entry")
+  let geos : List (List F64.Bits × F64.Bits) := (splitD (l.getD "geos") ",").map fun e =>
+    match e.splitOn "=" with
+    | [k, r] => (bitsDot k, bitsOf r)
+    | _ => ([], 0)
+  let results := (splitD (l.getD "res") ",").map fun e =>
+    match e.splitOn ":" with
+    | [c, content, nl, lb] => (c.toNat?.getD 0, ({ content := unhex content, nameLabels := parseLabels nl, labels := parseLabels lb } : Result))
+    | _ => (0, ({ content := str "?" } : Result))
+  { coll := { alpha := bitsOf (l.getD "alpha"), addGeoMean := l.getD "geo" == "1",
+              splitBy := strList (l.getD "split" "-"), order := parseOrder (l.getD "order") }
+    cfgs := strList (l.getD "cfgs" "-")
+    results := results
+    num := num
+    T := fun o n => match tests.lookup (o.map F64.canonNaN, n.map F64.canonNaN) with
+      | some r => r | none => .errOther "?no-test-data"
+    G := fun ms => match geos.lookup (ms.map F64.canonNaN) with
+      | some r => r | none => 0x0000DEADDEADDEAD }
+
+def Case.build (cs : Case) : Coll :=
+  (List.range cs.cfgs.length).foldl (fun c i =>
+    addResults cs.num c (cs.cfgs.getD i []) ((cs.results.filter (·.1 == i)).map (·.2))) cs.coll
+
+def dedupStr (l : List Str) : List Str := l.foldl (fun acc s => if acc.contains s then acc else acc ++ [s]) []
+
+def dumpMetric (m : Metrics) : String :=
+  s!"{m.unit.toHex}:{m.values.length}:{showBitsList "." m.rvalues}:{showBits m.min}:{showBits m.mean}:{showBits m.max}"
+
+def quart (vals : List F64.Bits) : String :=
+  showBitsZ (percentile vals c0_25) ++ "." ++ showBitsZ (percentile vals c0_75)
+
+/-- the obs payloads of one Tables() call (without the `obs <id> call=k` prefix) -/
+def dump (c : Coll) (ts : List Table) : List String :=
+  let bm := ";".intercalate (c.groups.map fun g => g.toHex ++ ":" ++ ".".intercalate ((benchOf c.benchmarks g).map Bytes.toHex))
+  let hdr := s!"hdr configs={showStrList c.configs} groups={showStrList c.groups} units={showStrList c.units} bm={bm} nt={ts.length}"
+  let ms := (dedupStr c.configs).flatMap fun cfg => c.units.flatMap fun u => c.groups.flatMap fun g =>
+    (benchOf c.benchmarks g).filterMap fun b =>
+      (findMetric c.metrics ⟨cfg, g, b, u⟩).map fun m =>
+        s!"m cfg={cfg.toHex} g={g.toHex} b={b.toHex} u={u.toHex} vals={showBitsListD m.values} rv={showBitsListD m.rvalues} min={showBits m.min} mean={showBits m.mean} max={showBits m.max} q={quart m.values}"
+  let tl := (ts.zipIdx).flatMap fun (t, i) =>
+    s!"t={i} unit={t.unit.toHex} metric={t.metric.toHex} ond={if t.oldNewDelta then 1 else 0} cfgs={showStrList t.configs} grps={showStrList t.groups} nrows={t.rows.length}" ::
+    (t.rows.zipIdx).map fun (r, j) =>
+      s!"t={i} r={j} b={r.bench.toHex} g={r.group.toHex} ms={";".intercalate (r.metrics.map dumpMetric)} pd={showBits r.pctDelta} d={hexStr r.delta} n={hexStr r.note} c={r.change}"
+  hdr :: ms ++ tl
+
+structure State where
+  cur : Option (String × Case) := none
+  goObs : List String := []        -- obs payloads of the implementation for the current case
+
+def handleCase (l : Line) : IO (Option (String × Case)) := do
+  let id := l.id
+  if l.get? "cfgs" == none then return none
+  let cs := parseCase l
+  let c0 := cs.build
+  let (c1, t1) := tables cs.T cs.G c0
+  for d in dump c1 t1 do IO.println s!"obs {id} call=1 {d}"
+  let text := formatText t1
+  let csv := formatCSV t1 false
+  let csvnr := formatCSV t1 true
+  let (c2, t2) := tables cs.T cs.G c1
+  for d in dump c2 t2 do IO.println s!"obs {id} call=2 {d}"
+  IO.println s!"obs {id} text={text.toHex}"
+  IO.println s!"obs {id} csv={csv.toHex}"
+  IO.println s!"obs {id} csvnr={csvnr.toHex}"
+  return some (id, cs)
+
+/-- S layer: judge the implementation's dump (its obs lines) against the specification -/
+def judge (id : String) (cs : Case) (goObs : List String) : IO Unit := do
+  let lines := goObs.map parseLine
+  let call (k : String) := lines.filter fun l => l.getD "call" == k
+  let spec := Spec.Legacy.ofInput cs.num cs.coll.splitBy cs.cfgs cs.results
+  let setting : Spec.Legacy.Settings := { alpha := cs.coll.alpha, order := cs.coll.order, geo := cs.coll.addGeoMean, T := cs.T }
+  let mline (l : Line) : Bool := l.words.contains "m"
+  let stats (k : String) : String :=
+    Spec.Legacy.judgeAll ((call k).filter mline |>.map fun l =>
+      ({ cfg := unhex (l.getD "cfg"), group := unhex (l.getD "g"), bench := unhex (l.getD "b"), unit := unhex (l.getD "u"),
+         rv := (splitD (l.getD "rv") ",").map bitsOf, min := bitsOf (l.getD "min"), mean := bitsOf (l.getD "mean"),
+         max := bitsOf (l.getD "max") } : Spec.Legacy.ImplMetric)) spec
+  let parseMs (s : String) : List Spec.Legacy.ImplCell := (splitD s ";").map fun e =>
+    match e.splitOn ":" with
+    | [u, n, rv, mn, me, mx] => { unit := unhex u, nvals := n.toNat?.getD 0, rv := bitsDot rv, min := bitsOf mn, mean := bitsOf me, max := bitsOf mx }
+    | _ => { unit := str "?", nvals := 0, rv := [], min := 0, mean := 0, max := 0 }
+  let tabs (k : String) : String :=
+    let ls := call k
+    let hdrs := ls.filter fun l => (l.get? "unit").isSome
+    let its : List Spec.Legacy.ImplTable := hdrs.map fun h =>
+      let t := h.getD "t"
+      let rows := ls.filter fun l => l.getD "t" == t && (l.get? "r").isSome
+      { unit := unhex (h.getD "unit"), metric := unhex (h.getD "metric"), ond := h.getD "ond" == "1",
+        rows := rows.map fun r => { bench := unhex (r.getD "b"), group := unhex (r.getD "g"), cells := parseMs (r.getD "ms"),
+                                    pd := bitsOf (r.getD "pd"), delta := unhexString (r.getD "d"), note := unhexString (r.getD "n"),
+                                    change := (r.getD "c").toInt?.getD 0 } }
+    Spec.Legacy.judgeTables its spec setting
+  let strip (l : Line) : List String := l.words.filter fun w => !(w.startsWith "call=")
+  let same := (call "1").map strip == (call "2").map strip
+  IO.println s!"spec {id} stats1={stats "1"} stats2={stats "2"} tabs1={tabs "1"} tabs2={tabs "2"} same={if same then 1 else 0}"
+
+partial def loop (h : IO.FS.Stream) (st : State) : IO Unit := do
+  let line ← h.getLine
+  if line.isEmpty then return ()
+  let s := line.trimAsciiEnd.toString
+  let l := parseLine s
+  match l.kind with
+  | "case" =>
+    let cur ← handleCase l
+    loop h { cur := cur, goObs := [] }
+  | "obs" =>
+    -- payload after "obs <id> "
+    let payload := " ".intercalate (l.words.drop 2)
+    loop h { st with goObs := payload :: st.goObs }
+  | "sobs" =>
+    match st.cur with
+    | some (id, cs) => judge id cs st.goObs.reverse
+    | none => pure ()
+    loop h { cur := none, goObs := [] }
+  | _ => loop h st
+
+end Driver.C17
+
+def main : IO Unit := do
+  let stdin ← IO.getStdin
+  Driver.C17.loop stdin {}
